@@ -1,11 +1,37 @@
 (* C04  Parsing is total: an AST or an error, never a crash or hang.
-   In the model every Go panic site is an explicit outcome ([Crash]: the "unexpected literal" panic after a
-   sign, a negative ring index), and running out of the shared fuel is another ([OutOfFuel]); the harness
-   compares outcome classes, error positions and maximum pushback depths with the implementation on
-   mutated, random and deeply nested inputs x all parameter kinds (harness/c04.go).  Proved here: the
-   lexer statements below.  PARTIAL: crash-freedom and fuel adequacy of the whole parser are not yet
-   theorems; goroutine stack exhaustion (~10^6 nested parentheses) is outside any Gallina model. *)
-From InfluxQL Require Import Base.Prelude Lex.Token Lex.Reader Lex.Scanner Proofs.ReaderProofs Proofs.LexBounded.
+   In the model every Go panic site is an explicit outcome ([Crash]: the "unexpected literal" panic after a sign, a
+   negative index into the 3-slot token ring or the 3-slot rune ring), and running out of the shared fuel is another
+   ([OutOfFuel]).  Proved here for EVERY text, every parameter binding and every fuel: ParseQuery, ParseStatement and
+   ParseExpr never crash - by a weakest-precondition logic over the parser's instruction programs (at most one token is
+   pushed back at any function boundary, at most three inside; after a sign the operand parser returns a literal,
+   reference, call or parenthesis, so the panic site is unreachable) and a bound on the lexer's pushed-back runes
+   (at most two between tokens, at most three inside).  The harness compares outcome classes, error positions and
+   maximum pushback depths with the implementation on mutated, random and deeply nested inputs x all parameter kinds.
+   PARTIAL in one respect: that the fuel the entry points supply always suffices (no hang) is compared, not proved;
+   goroutine stack exhaustion (~10^6 nested parentheses) is outside any Gallina model. *)
+From InfluxQL Require Import Base.Prelude Base.Oracles Lex.Token Lex.Reader Lex.Scanner Parse.Instr Parse.ParseExpr Parse.ParseStmts
+  Proofs.ReaderProofs Proofs.LexBounded Proofs.LexerSafety Proofs.ParserSafety Proofs.ParserSafetyStmts.
+
+(* never a crash: no panic site is reached and neither ring is ever indexed out of range *)
+Theorem C04_never_crashes : forall (orc : oracles) text params fuel,
+  not_crash (run (o_ulower orc) (parse_query orc fuel) (new_pstate text params)) /\
+  not_crash (run (o_ulower orc) (parse_statement orc fuel) (new_pstate text params)) /\
+  not_crash (run (o_ulower orc) (parse_expr orc fuel) (new_pstate text params)).
+Proof. exact parser_never_crashes. Qed.
+Print Assumptions C04_never_crashes.
+
+(* the lexer: between tokens at most two runes are pushed back, and Scan, ScanRegex and peekRune keep it so without
+   ever faulting the rune ring *)
+Theorem C04_lexer_keeps_ring : forall ulower r, rb 2 r ->
+  rb 2 (snd (scan ulower r)) /\ rb 2 (snd (scan_regex r)) /\
+  (let '((ch, _), r') := read r in let r'' := if ch =? 0 then r' else unread r' in rb 2 r'' /\ r_bad r'' = false).
+Proof. intros ulower r H. split; [apply rb_scan; exact H|]. split; [apply rb_scan_regex; exact H|apply rb_peek; exact H]. Qed.
+Print Assumptions C04_lexer_keeps_ring.
+
+(* every parser function, in the logic: entered with at most one token pushed back it leaves at most one pushed back *)
+Theorem C04_parse_query_invariant : forall orc fuel s, le_n 1 s -> wp s (parse_query orc fuel) (fun _ s' => le_n 1 s').
+Proof. exact ok_parse_query. Qed.
+Print Assumptions C04_parse_query_invariant.
 
 (* one pushed-back rune is replayed from the ring as recorded: no stale slot, no index fault *)
 Theorem C04_unread_is_safe : forall r, wf r ->
